@@ -595,7 +595,7 @@ func init() {
 	props["C05"] = propC05
 	propMeta["C05"] = PropMeta{
 		Technique:   "static analysis: bounds/panic obligations (gc prove-pass listing + linear prover over SSA guards with checked lemmas), loop/recursion classification, SSA path conditions",
-		Explanation: "Totality decided structurally for everything reachable from ParseLogLine, Parse, Data, Tags, ToMapStr: every index/slice operation the compiler cannot prove in bounds, every non-constant allocation size, division, unchecked type assertion, nil-map write and explicit panic in scope is an obligation that must be proved from dominating guards and library postconditions or by a named lemma whose premises are re-checked; every loop is a range over a value not grown in its body or a counted loop with a loop-invariant bound, recursion only through the reviewed extractKeyValuePairs (argument is a strict submatch); Data's cached-result test dominates all work and every other path stores the result it returns; ToMapStr reports a parse error under the 'error' key.",
+		Explanation: "Totality decided structurally for everything reachable from ParseLogLine, Parse, Data, Tags, ToMapStr: every index/slice operation the compiler cannot prove in bounds, every non-constant allocation size, division, unchecked type assertion, nil-map write and explicit panic in scope is an obligation that must be proved from dominating guards and library postconditions or by a named lemma whose premises are re-checked; every loop is a range over a value not grown in its body or a counted loop with a loop-invariant bound, recursion only through the reviewed extractKeyValuePairs (argument is a strict submatch); Data's cached-result test dominates all work and every other path stores the result it returns; ToMapStr reports a parse error under the 'error' key. A loop counted by a number parsed from the input must find a key computed from its induction variable on every continuing iteration (work bounded by the input's size, not by the number).",
 		NotDecided:  "Panics from nil receivers or from messages whose exported fields were overwritten by the caller (outside 'any message they return'); termination of library code (Go's regexp is linear-time).",
 		Assumptions: []string{"the gc compiler's prove pass is sound (sites it eliminates are in bounds)", "library postconditions listed in the checker"},
 	}
